@@ -11,6 +11,10 @@ type Tag struct {
 	Name              TagName
 	Title             string
 	Description       *string
+
+	// made for the path of an interaction that names no tag (not declared by a
+	// TAG directive): a Tags directive cannot refer to it.
+	fromPath bool
 }
 
 var _ json.Marshaler = &Tags{}
@@ -31,6 +35,7 @@ func newPathTag(r InteractionID) *Tag {
 		Children:          &Tags{},
 		Title:             title,
 		Name:              tagName(title),
+		fromPath:          true,
 	}
 }
 
